@@ -123,6 +123,17 @@ macro_rules! dispatch {
 }
 pub const NSLOTS: usize = 32;
 
+/// An interface savefile-abi refuses with a panic while it analyses it (more than 64 methods), on slot 31.
+/// Returns how the attempt ended.
+pub fn refused_interface_probe() -> String {
+    let mut r = Rng::new(5);
+    let methods: Vec<AbiMethod> = (0..65).map(|i| gen_method(&mut r, i, 0)).collect();
+    let d = AbiTraitDefinition { name: "Wide".into(), methods, sync: false, send: false };
+    set_slot(false, 31, Family { defs: vec![d.clone()] });
+    set_slot(true, 31, Family { defs: vec![d] });
+    connect_slot::<31>()
+}
+
 pub fn hexname(s: &str) -> String {
     format!("h{}", if s.is_empty() { String::new() } else { hex(s.as_bytes()) })
 }
